@@ -7,7 +7,7 @@ ID=$1; PATCH=$(readlink -f "$2"); DEMO=$(readlink -f "$3"); CMD=$(readlink -f "$
 W=$(mktemp -d /tmp/seedconf.XXXXXX)
 git -C /repo worktree add -q --detach "$W/r" HEAD || exit 3
 R="$W/r"
-orig=$(grep -o '/tmp/wt2\?/[A-Za-z0-9_]*' "$CMD" | head -1)
+orig=$(grep -o '/tmp/wt[0-9]*/[A-Za-z0-9_]*' "$CMD" | head -1)
 cmd=$(head -1 "$CMD" | sed "s#$orig#$R#g")
 cp "$DEMO" "$R/demo.cpp"
 clean() { rm -rf "$R/bin" "$R/pairing.a" "$R/tests/bin" "$R/tests/pairing.a" "$R/tests/test" "$R/demo"; }
